@@ -68,6 +68,14 @@ CHECKS = {
               "correctly hashing closure, keep every previously reachable object, parse index/config as old or new and never offer a half-written object."),
         note="Trusted: interposition layer incl. raw write visibility (LoggedFileIO), atomic system calls (no torn write(2)), ordered-metadata power-loss model restricted to one damaged unsynced file at a time.",
     ),
+    "C12": dict(
+        engine="E4 enum", category="exploration",
+        technique="exhaustive enumeration of all consistent flat listings and all pairs of listings over a conflict-engineered path/mode alphabet; reference model + git mktree / diff-tree as oracles; Rust and pure-Python passes",
+        text=("Every consistent listing of <=3 (thorough <=4) entries over 8 paths x 8 kinds through commit_tree in every input order (ids vs reference and git mktree, canonical order, flatten, lookup); the full square of "
+              "listing families through tree_changes under the flag cube, path filters, None trees and three RenameDetector settings, and commit_tree_changes under all change orders: apply(diff(A,B),A)=B, each path at most once per side, "
+              "git diff-tree agreement; the same space once with the rebuilt Rust extension and once with the extension import blocked."),
+        note="Trusted: engines/refmodels/gittree.py (agreed with git on all compared diffs); rename pairing itself is only constrained by soundness clauses, not compared with git.",
+    ),
     "C13": dict(
         engine="E4 enum", category="exploration",
         technique="exhaustive enumeration of all DAGs up to n commits x all weak orderings of their timestamps; brute-force transitive closure + C git as oracles",
